@@ -3,18 +3,19 @@
    tools/refactortest.py <id> <prop>..."""
 import sys, os, json, subprocess, shutil, time
 ROOT = os.path.dirname(os.path.dirname(os.path.abspath(__file__)))
+REPO = os.environ.get("VERIF_REPO", "/repo")  # the checks honour the same variable
 def sh(cmd, cwd=None, timeout=3000):
     p = subprocess.run(cmd, shell=True, cwd=cwd, stdout=subprocess.PIPE, stderr=subprocess.STDOUT, text=True, timeout=timeout)
     return p.returncode, p.stdout
 rid, props = sys.argv[1], sys.argv[2:]
 d = os.path.join(ROOT, "refactors", rid)
 meta = json.load(open(os.path.join(d, "meta.json")))
-rc, out = sh("git -C /repo status --porcelain")
+rc, out = sh("git -C %s status --porcelain" % REPO)
 if out.strip():
     sys.exit("refusing: /repo has local changes")
 bak = os.path.join(ROOT, ".work", "evidence-bak-%d" % os.getpid())
 shutil.rmtree(bak, ignore_errors=True); shutil.copytree(os.path.join(ROOT, "evidence"), bak)
-rc, out = sh("git -C /repo apply %s" % os.path.join(d, "patch.diff"))
+rc, out = sh("git -C %s apply %s" % (REPO, os.path.join(d, "patch.diff")))
 if rc != 0:
     sys.exit("patch does not apply: " + out)
 res = {}
@@ -29,8 +30,8 @@ try:
         for l in detail:
             print("    ", l[:300])
 finally:
-    sh("git -C /repo checkout -- .")
-    sh("./.work/tr random /repo lean/Chihaya/Gen/Random.lean && ./.work/tr validate /repo lean/Chihaya/Gen/Validate.lean", cwd=ROOT)
+    sh("git -C %s checkout -- ." % REPO)
+    sh("./.work/tr random %s lean/Chihaya/Gen/Random.lean && ./.work/tr validate %s lean/Chihaya/Gen/Validate.lean" % (REPO, REPO), cwd=ROOT)
     shutil.rmtree(os.path.join(ROOT, "evidence")); shutil.copytree(bak, os.path.join(ROOT, "evidence")); shutil.rmtree(bak)
 meta.setdefault("runs", []).append(dict(at=time.strftime("%Y-%m-%dT%H:%M:%SZ", time.gmtime()), results=res))
 json.dump(meta, open(os.path.join(d, "meta.json"), "w"), indent=1)
